@@ -199,10 +199,26 @@ except Exception:  # the probes are best effort; they never influence the outcom
 
 
 # ---------------------------------------------------------------- routes
-def resolve(source, recursive):
-    from xsdata import cli
+SOURCE_EXTENSIONS = ("wsdl", "xsd", "dtd", "xml", "json")
 
-    return sorted(cli.resolve_source(source, recursive=recursive))
+
+def resolve(source, recursive):
+    """The URIs a caller of the programmatic API passes for a source: the file itself, or the supported
+    files a listing of the directory shows (the harness's own listing, not the command line's)."""
+    if "://" in source and not source.startswith("file://"):
+        return [source]
+    top = os.path.realpath(source)
+    if not os.path.isdir(top):
+        return [pathlib.Path(top).as_uri()]
+    found = []
+    for root, dirs, names in os.walk(top):
+        dirs.sort()
+        for nm in names:
+            if "." in nm and nm.rsplit(".", 1)[1] in SOURCE_EXTENSIONS:
+                found.append(pathlib.Path(os.path.join(root, nm)).as_uri())
+        if not recursive:
+            break
+    return sorted(found)
 
 
 def apply_params(cfg, params):
@@ -261,6 +277,16 @@ def write_config(path, params):
     apply_params(cfg, params)
     with open(path, "w") as fp:
         GeneratorConfig.write(fp, cfg)
+    stamp = ENV.get("config_version")
+    if stamp is not None:
+        import re
+
+        with open(path, encoding="utf-8") as fp:
+            text = fp.read()
+        text, n = re.subn(r'(<Config\b[^>]*\bversion=")[^"]*(")', lambda m: m.group(1) + stamp + m.group(2), text, count=1)
+        if n:
+            with open(path, "w", encoding="utf-8") as fp:
+                fp.write(text)
 
 
 def generate(source, recursive, params, route, cache, workdir):
